@@ -20,7 +20,7 @@ CHECK = {
         {"fn": M + "actor.vC37_spawnOn", "opts": {"stub": [M + "internal/types.Name"]}},
     ],
     "stop": ["(*" + M + "actor.actorSystem).Spawn", "(*" + M + "actor.actorSystem).spawnOnDatacenter", M + "actor.newRemotePID"],
-    "timeout_ms": {"quick": 170000, "thorough": 1500000},
+    "timeout_ms": {"quick": 300000, "thorough": 1800000},
     "opts": {"unwind": 16, "substitute": SUBST, "birth_guard_stores": True, "map_range": "per_entry", "map_dedup": True, "feas_from_iter": 100},
     "explanation": "(1) internal/codec: EncodeSupervisor/DecodeSupervisor (+ encode/decodeSupervisorStrategy/Directive), supervisor.NewSupervisor and its options, Supervisor.Rules/Directive/AnyErrorDirective/"
                    "SetDirectiveByType, xsync.Map, the generated internalpb getters: every supervisor a user can build with WithStrategy, WithRetry(any uint32, any int64), 0..2 WithDirective rules over a set of "
